@@ -108,8 +108,8 @@ def deductive_records(prop=PROP):
             ujobs.append(('unicall', (r['job'][0], r['job'][1], case, prefix)))
     ujobs.sort(key=lambda j: -len(j[1][0]))       # deepest patterns first
     jobs = ujobs + \
-           [('contract', 'depccg/unification.py::Unification.__call__.scan_deep'),
-            ('contract', 'depccg/unification.py::Unification.__getitem__.rec'),
+           [('contract', uc.ScanDeep().name),
+            ('contract', uc.Rec().name),
             ('contract', 'depccg/unification.py::Unification.__getitem__')] + \
            [('lemma', n) for n in uc.uni_lemmas(w)] + [('misc', 'inv-init')]
     results = engine.run_jobs('props.c06', jobs)
